@@ -21,16 +21,32 @@ class ValidateSwizzleMaskVisitor(Visitor.DefaultVisitor):
     """Validate swizzle masks on vector types."""
 
     def __init__(self):
+        super().__init__()
         self.valid = True
 
     def v_MemberAccessExpression(self, expr, ctx=None):
         import nsl.Errors
 
+        def OnError():
+            self.valid = False
+
+        # The parent can be an access expression itself
+        self.v_Visit(expr.GetParent(), ctx)
+
         t = expr.GetParent().GetType()
 
-        with nsl.Errors.CompileExceptionToErrorHandler(self.errorHandler):
+        with nsl.Errors.CompileExceptionToErrorHandler(
+            self.errorHandler, OnError
+        ):
             if t.IsPrimitive() and (t.IsVector() or t.IsScalar()):
-                ValidateSwizzleMask(expr.GetMember())
+                mask = expr.GetMember().GetName()
+                ValidateSwizzleMask(mask)
+
+                # The mask must only select components the type has
+                componentCount = t.GetSize()[0] if t.IsVector() else 1
+                for m in mask:
+                    if max("xyzw".find(m), "rgba".find(m)) >= componentCount:
+                        nsl.Errors.ERROR_INVALID_SWIZZLE_MASK.Raise()
 
 
 def GetPass():
